@@ -175,6 +175,15 @@ func c11List(tier string) []c11scen {
 		return w
 	}, pb: 1,
 		threads: [][]c11call{{callFind("T1", "aab"), callIdle(9 * time.Second), callFind("T1", "xaab")}, {callIdle(9 * time.Second), callFind("T2", "ab")}}})
+	// S11 replacement cache warmed with three entries; the goroutines only hit (a hit re-orders the shared LRU list)
+	add(c11scen{name: "S11 Replace hits on a warm cache", build: func() *c11world {
+		w := mk(map[string][]any{"R": {`(a)(b)`, regexp2.OptionMaxCachedReplacerDataEntries(3)}})()
+		for _, r := range []string{"<$1>", "[$2$1]", "${1}-$&"} {
+			w.re["R"].Replace("ab", r, -1, -1)
+		}
+		return w
+	}, pb: 2,
+		threads: [][]c11call{{callReplace("R", "xaby", "<$1>"), callReplace("R", "ab", "${1}-$&")}, {callReplace("R", "xaby", "[$2$1]"), callReplace("R", "ab", "<$1>")}}})
 	// S8 balancing pattern ∥ bool-only call on the same Regexp
 	add(c11scen{name: "S8 balancing||bool", build: mk(map[string][]any{"R": {`(?<o>a)+(?<-o>b)+(?(o)(?!))`}}), stepK: 8,
 		threads: [][]c11call{{callFind("R", "aabb"), callIterate("R", "abab")}, {callMatchString("R", "aab"), callMatchRunes("R", "ab")}}})
